@@ -904,6 +904,9 @@ func (ex *Exec) sprintArgs(va Val, spaces bool) Str {
 func mSprint(ex *Exec, args []Val) Val { return ex.sprintArgs(args[0], false) }
 
 func (ex *Exec) namedPtr(pkg, name string) types.Type {
+	if ex.w.prog == nil { // selftest: no program loaded
+		return types.Universe.Lookup("error").Type()
+	}
 	p := ex.w.prog.ImportedPackage(pkg)
 	if p == nil {
 		unsupported("package %s not loaded", pkg)
@@ -1319,10 +1322,6 @@ func (ex *Exec) jsEscape(s Str) Str {
 			hi := ex.concretize(mkInt(mkBV("bvlshr", b.T, mkConst(4, 8)), 8, false), 0, 1)
 			lo := ex.concretize(mkInt(mkBV("bvand", b.T, mkConst(15, 8)), 8, false), 0, 15)
 			out = append(out, cstr("\\u00"+string(hex[hi])+string(hex[lo])).B...)
-			continue
-		}
-		if ex.branch(mkBool(mkEq(b.T, mkConst(0x7f, 8)))) {
-			out = append(out, cstr("\\u007F").B...)
 			continue
 		}
 		out = append(out, b)
